@@ -61,6 +61,7 @@ fixed("C06","C06/keyword-like-token/origin-relative/a","7b7f089","a relative $OR
 fixed("C06","C06/keyword-like-token/origin-absolute-trailing-comment/classic","2b347ff","an origin name that merely starts with TYPE or CLASS (classic.example., type1.example., typeset) followed by a blank or a comment after $ORIGIN / as $INCLUDE origin was rejected with 'unknown RR type' / 'unknown class' by the lexer")
 # ---- C07
 fixed("C07","C07/error-line-out-of-range/mutation","de58904","a zone text ending right after a $GENERATE range ('$GENERATE 13-17<EOF>') was reported as 'garbage after $GENERATE range: \"\" at line: 0:0': the end-of-input token carries no position")
+fixed("C07","C07/syntax-error-not-reported/unbalanced-parenthesis/CSYNC","cdc71f1","an unbalanced parenthesis inside the RDATA of NSEC, NSEC3, NXT, CSYNC, LOC, HIP, APL, SVCB/HTTPS or NSEC3PARAM was swallowed: the record was returned, every later entry silently dropped and Err() stayed nil (those RDATA loops ignore the lexer's error flag)")
 # ---- C11
 fixed("C11","C11/accepts-altered/field/fudge-zero","a6d820e","TsigVerify substituted the default fudge 300 (and the current time) for a zero fudge / time signed found in the received TSIG, so a message whose fudge was changed from 300 to 0 still verified")
 # ---- C13
